@@ -356,13 +356,71 @@ def oracle_multimember_tar(ctx):
                     'stdout and exit status == the extracted members named in archive order'}
 
 
+def oracle_tar_member_names(ctx):
+    """One member per archive, its PATH varied: short, nested, longer than the 100-byte ustar name field (ustar prefix split,
+    GNU @LongLink, pax path=), non-ASCII (pax). Text and accounting members are read through BlockReader's tar path, journal and
+    evtx members are extracted by decompress_to_ntf: both must find the member under the name the archive listing gives."""
+    import io
+    import tarfile
+    rng = e2e.Rng(ctx.seed * 89 + 23)
+    fails, ev, samples = [], 0, []
+    payloads = [('text.log', e2e.gen_log(rng, 12, start=1672531200, steps=(1, 2, 5), weird=False).data),
+                ('c05n.wtmp', b''.join(C08.rec(i, 1700000000 + i * 3, 5) for i in range(6)))]
+    if os.path.exists(EVTX):
+        payloads.append(('c05n.evtx', open(EVTX, 'rb').read()))
+    if os.path.exists(JOURNAL_GZ):
+        payloads.append(('c05n.journal', gzip.open(JOURNAL_GZ, 'rb').read()))
+    long_dir = '/'.join(['directory-%02d-with-a-long-name' % i for i in range(4)])          # 119 bytes
+    forms = [('short', lambda b: b, (tarfile.USTAR_FORMAT, tarfile.GNU_FORMAT, tarfile.PAX_FORMAT)),
+             ('nested', lambda b: 'var/log/host/' + b, (tarfile.USTAR_FORMAT, tarfile.GNU_FORMAT, tarfile.PAX_FORMAT)),
+             ('long', lambda b: long_dir + '/' + b, (tarfile.USTAR_FORMAT, tarfile.GNU_FORMAT, tarfile.PAX_FORMAT)),
+             ('nonascii', lambda b: 'журнал/' + b, (tarfile.GNU_FORMAT, tarfile.PAX_FORMAT))]
+    if not ctx.thorough:
+        payloads = [payloads[0]] + payloads[2:]
+    for base_name, data in payloads:
+        base = os.path.join(ctx.work, 'tn_' + base_name)
+        os.makedirs(base, exist_ok=True)
+        plain = os.path.join(base, base_name)
+        open(plain, 'wb').write(data)
+        ref = run(plain)[:2]
+        ev += 1
+        if not ref[1]:
+            fails.append({'signature': 'oracle:plain-printed-nothing', 'detail': base_name})
+            continue
+        for fname, mk, fmts in forms:
+            for fmt in fmts:
+                tpath = os.path.join(base, 'n_%s_%d.tar' % (fname, fmt))
+                try:
+                    with tarfile.open(tpath, 'w', format=fmt) as tf:
+                        ti = tarfile.TarInfo(mk(base_name))
+                        ti.size = len(data)
+                        ti.mtime = int(os.path.getmtime(plain))
+                        tf.addfile(ti, io.BytesIO(data))
+                except ValueError:
+                    continue        # this format cannot store this name
+                r = run(tpath)
+                ev += 1
+                if r[:2] != ref:
+                    fails.append({'signature': 'container:tar-member-name-not-found' if not r[1] else 'container:tar-differs-from-plain',
+                                  'detail': f'{base_name} as member {mk(base_name)!r} ({len(mk(base_name).encode())} bytes) in a '
+                                            f'{ {0: "ustar", 1: "gnu", 2: "pax"}[fmt]} archive: rc={r[0]} vs {ref[0]}; ' + first_diff(r[1], ref[1]) + f' stderr={r[2][-200:]!r}',
+                                  'member': mk(base_name), 'format': fmt})
+                os.unlink(tpath)
+        samples.append({'oracle': 'C05 tar member names', 'payload': base_name, 'bytes': len(data)})
+        shutil.rmtree(base, ignore_errors=True)
+    return {'evaluations': ev, 'distinct_nontrivial': ev, 'failures': fails, 'samples': samples[:2],
+            'rule': 'a text log, a wtmp file, the evtx sample and a journal as the single member of ustar/gnu/pax archives under short, nested, '
+                    '> 100-byte and non-ASCII member paths: stdout and exit status == the plain file'}
+
+
 def oracle(ctx):
+    f = oracle_tar_member_names(ctx)
     a = text_oracles.oracle_containers(ctx, ctx.q(6, 40))
     b = oracle_binary_kinds(ctx)
     c = oracle_known_decoder_findings(ctx)
     d = oracle_multiblock(ctx)
     e = oracle_multimember_tar(ctx)
-    return core.merge_oracles([a, b, c, d, e])
+    return core.merge_oracles([a, b, c, d, e, f])
 
 
 def check(ctx):
